@@ -79,6 +79,42 @@ def react (repaired : Bool) (nodes : Nat → Node) (exc : Nat → Nat → E) (re
 def flowSem (repaired : Bool) (nodes : Nat → Node) (exc : Nat → Nat → E) (refusal : Nat → E) : Sem (FStore E) :=
   { react := react repaired nodes exc refusal }
 
+/-! ### the variant in which a cache hit emits directly
+
+`Node._before_run` on a cache hit inside a running parent registers start and finish and QUEUES the child's signals
+(`register_child_emitting`): `react` above, through `Signal.runNode`'s hit branch. In the variant below the hit fires
+its signals on the spot, inside the `run()` that found the hit: the receivers (any-of `run` inputs) run right there, and
+what one of them raises comes out of the CACHED child's `run()` — the composite books it on that child. -/
+
+def isHit (st : Store) (r : Store × Bool × List Sig) : Bool :=
+  !r.2.1 && (r.1.callLog.length == st.callLog.length) && decide (st.execLog.length < r.1.execLog.length)
+
+/-- run the receivers of a directly emitted signal list one after the other; stop at the first that raises -/
+def fireNow (nodes : Nat → Node) : List Nat → Store → List Entry → List Sig → Store × List Entry × List Sig × Option (Nat × Nat)
+  | [], st, lg, out => (st, lg, out, none)
+  | j :: rest, st, lg, out =>
+    let r := runNode nodes st j
+    let started := decide (st.execLog.length < r.1.execLog.length)
+    let lg' := lg ++ [{ child := j, raised := r.2.1, started := started, sigs := r.2.2 }]
+    if r.2.1 && started then (r.1, lg', out ++ r.2.2, some (j, r.1.attempts j))
+    else fireNow nodes rest r.1 lg' (out ++ r.2.2)
+
+def reactDirect (g : Graph) (nodes : Nat → Node) (exc : Nat → Nat → E) (refusal : Nat → E) (fs : FStore E) (i : Nat) :
+    FStore E × Bool × List Sig :=
+  let r := runNode nodes fs.st i
+  if isHit fs.st r then
+    let recvs := ((pairs g r.2.2).filter (fun p => !p.2.acc)).map (fun p => p.2.node)
+    let lg0 := fs.log ++ [{ child := i, raised := false, started := true, sigs := [] }]
+    match fireNow nodes recvs r.1 lg0 [] with
+    | (st', lg', out, some (j, k)) =>
+      -- the receiver's exception leaves through the cached child's `run()`: booked on `i`, as a run that started
+      ({ st := st', book := collect fs.book i (exc j k) false, log := lg' }, true, out)
+    | (st', lg', out, none) => ({ st := st', book := fs.book, log := lg' }, false, out)
+  else react true nodes exc refusal fs i
+
+def flowSemDirect (g : Graph) (nodes : Nat → Node) (exc : Nat → Nat → E) (refusal : Nat → E) : Sem (FStore E) :=
+  { react := reactDirect g nodes exc refusal }
+
 /-- what the caller sees (local children): nothing; one error → `FailedChildError from` it; several → `from None` -/
 inductive Seen (E : Type) where
   | nothing
